@@ -80,9 +80,13 @@ pub fn convert_node(ast: &ASTTy, imp: &mut Imports, state: &State, ctx: &Context
         NodeTy::Str { lit, expressions } if expressions.is_empty() => Core::Str {
             string: lit.clone(),
         },
-        NodeTy::Str { lit, expressions } => Core::FStr {
-            string: interpolate(lit, &convert_vec(expressions, imp, state, ctx)?),
-        },
+        NodeTy::Str { lit, expressions } => {
+            let expressions = convert_vec(expressions, imp, state, ctx)?;
+            let msg = "string with quotes of both kinds or an escape in an interpolated expression";
+            let string = interpolate(lit, &expressions)
+                .ok_or_else(|| Box::from(UnimplementedErr::new(ast, msg)))?;
+            Core::FStr { string }
+        }
 
         NodeTy::Undefined => Core::None,
         NodeTy::ExpressionType { expr, .. } => {
@@ -325,7 +329,9 @@ pub fn convert_node(ast: &ASTTy, imp: &mut Imports, state: &State, ctx: &Context
 
 /// The text of a string in which the source of each interpolated expression is replaced by the
 /// Python source of that expression (the expressions are found as the lexer finds them).
-fn interpolate(lit: &str, expressions: &[Core]) -> String {
+///
+/// None if the source of an expression cannot stand within a Python string.
+fn interpolate(lit: &str, expressions: &[Core]) -> Option<String> {
     let (mut out, mut cur_expr) = (String::new(), String::new());
     let (mut depth, mut back_slash) = (0, false);
     let mut expressions = expressions.iter();
@@ -346,7 +352,7 @@ fn interpolate(lit: &str, expressions: &[Core]) -> String {
                 cur_expr.pop(); // closing bracket
                 if !cur_expr.is_empty() {
                     out.push_str(&match expressions.next() {
-                        Some(core) => python_in_string(core),
+                        Some(core) => python_in_string(core)?,
                         None => cur_expr.clone(),
                     });
                 }
@@ -362,16 +368,16 @@ fn interpolate(lit: &str, expressions: &[Core]) -> String {
         }
         back_slash = c == '\\';
     }
-    out
+    Some(out)
 }
 
 /// Python source of an expression within a string delimited by double quotes.
-fn python_in_string(core: &Core) -> String {
+fn python_in_string(core: &Core) -> Option<String> {
     let source = format!("{core}").trim_end().to_string();
-    if source.contains('"') && !source.contains('\'') && !source.contains('\\') {
-        source.replace('"', "'")
+    if source.contains('\\') || (source.contains('"') && source.contains('\'')) {
+        None
     } else {
-        source
+        Some(source.replace('"', "'"))
     }
 }
 
